@@ -1145,6 +1145,16 @@ func rulePratt(p *Program, r *Reporter) {
 				}
 				return false
 			}, nil)
+			exact := true
+			for _, o := range originsThroughPhi(c.call.Call.Args[1], 4) {
+				if oc, ok := o.(*ssa.Call); !ok || oc.Call.StaticCallee() != pr.curPrec {
+					exact = false
+				}
+			}
+			if !exact {
+				r.Fail(key, p.Pos(c.call.Pos()), "the operator's binding power is adjusted on some path before the operand is parsed with it: for the operators that path applies to, a following operator of the same level is taken into the right operand (or one of the next level is cut off), so equal levels no longer group left-to-right")
+				continue
+			}
 			if advanced.IsValid() {
 				r.Fail(key, p.Pos(look.Pos()), "the operator's binding power is read after the parser advanced past the operator ("+p.Pos(advanced)+"): the operands are parsed with the binding power of whatever token comes next, so grouping depends on the operand's first token")
 			} else {
@@ -1321,6 +1331,9 @@ func ruleTernGuard(p *Program, r *Reporter) {
 				}
 				for i, a := range c.Call.Args {
 					h := c.Call.StaticCallee()
+					if ci, ok := a.(*ssa.ChangeInterface); ok {
+						a = ci.X // handed on as a more general interface
+					}
 					if a == cond && i < len(h.Params) && assertsTernary(h, h.Params[i]) {
 						examined, test = true, c
 					}
@@ -1337,7 +1350,195 @@ func ruleTernGuard(p *Program, r *Reporter) {
 			}
 		}
 	}
+	if test != nil {
+		ternarySearchComplete(p, r, test.(*ssa.Call).Call.StaticCallee())
+	}
 	r.Check(examined && rejects, key, p.Pos(fn.Pos()), "the condition is tested for *ast.TernaryExpression and a hit fails the parse", "the ternary parselet never looks into its condition, which was parsed before the in-ternary flag was set: `a ? b : c ? d : e` — the first ternary becomes the condition of the second — is accepted although nesting ternaries is documented as a syntax error")
+}
+
+// ternarySearchComplete: the function that looks for a ternary inside the
+// condition has a case for every kind of node that can hold an expression and
+// can occur inside an expression, and each case mentions every such child of
+// the node.  A kind without a case hides whatever is below it.
+func ternarySearchComplete(p *Program, r *Reporter, h *ssa.Function) {
+	decl := p.FuncDecl(h)
+	info := p.Info(h)
+	astPk := p.ByPath[Mod+"/ast"]
+	if decl == nil || info == nil || astPk == nil {
+		r.Undecided("ternary search covers every kind of node", "-", "no syntax for the search function")
+		return
+	}
+	scope := astPk.Types.Scope()
+	exprIface, _ := scope.Lookup("Expression").Type().Underlying().(*types.Interface)
+	if exprIface == nil {
+		r.Undecided("ternary search covers every kind of node", "-", "ast.Expression is not an interface")
+		return
+	}
+	// the struct types of package ast, by pointer
+	var structs []*types.Named
+	for _, n := range scope.Names() {
+		if tn, ok := scope.Lookup(n).(*types.TypeName); ok {
+			if nm, ok := tn.Type().(*types.Named); ok {
+				if _, isSt := nm.Underlying().(*types.Struct); isSt {
+					structs = append(structs, nm)
+				}
+			}
+		}
+	}
+	implementers := func(it *types.Interface) []*types.Named {
+		var out []*types.Named
+		for _, nm := range structs {
+			if types.Implements(types.NewPointer(nm), it) {
+				out = append(out, nm)
+			}
+		}
+		return out
+	}
+	// the node types a field type can hold
+	var holds func(t types.Type) []*types.Named
+	holds = func(t types.Type) []*types.Named {
+		switch u := t.(type) {
+		case *types.Pointer:
+			if nm, ok := types.Unalias(u.Elem()).(*types.Named); ok && nm.Obj().Pkg() == astPk.Types {
+				if _, isSt := nm.Underlying().(*types.Struct); isSt {
+					return []*types.Named{nm}
+				}
+			}
+		case *types.Slice:
+			return holds(u.Elem())
+		case *types.Map:
+			return append(holds(u.Key()), holds(u.Elem())...)
+		case *types.Named, *types.Alias:
+			if it, ok := t.Underlying().(*types.Interface); ok && t.(interface{ Obj() *types.TypeName }).Obj().Pkg() == astPk.Types {
+				return implementers(it)
+			}
+		}
+		return nil
+	}
+	// can a ternary be found at or below a node of this type?
+	var target *types.Named
+	for _, nm := range structs {
+		if nm.Obj().Name() == "TernaryExpression" {
+			target = nm
+		}
+	}
+	memo := map[*types.Named]int{} // 1 = yes, 2 = no, 3 = in progress
+	var canContain func(nm *types.Named) bool
+	canContain = func(nm *types.Named) bool {
+		if nm == target {
+			return true
+		}
+		switch memo[nm] {
+		case 1:
+			return true
+		case 2, 3:
+			return false
+		}
+		memo[nm] = 3
+		st := nm.Underlying().(*types.Struct)
+		res := false
+		for i := 0; i < st.NumFields(); i++ {
+			for _, c := range holds(st.Field(i).Type()) {
+				if canContain(c) {
+					res = true
+				}
+			}
+		}
+		if res {
+			memo[nm] = 1
+		} else {
+			memo[nm] = 2
+		}
+		return res
+	}
+	// types reachable below an expression
+	reach := map[*types.Named]bool{}
+	var visit func(nm *types.Named)
+	visit = func(nm *types.Named) {
+		if reach[nm] {
+			return
+		}
+		reach[nm] = true
+		st := nm.Underlying().(*types.Struct)
+		for i := 0; i < st.NumFields(); i++ {
+			for _, c := range holds(st.Field(i).Type()) {
+				visit(c)
+			}
+		}
+	}
+	for _, nm := range implementers(exprIface) {
+		visit(nm)
+	}
+	// the cases of the search
+	cases := map[string]*ast.CaseClause{}
+	var swVar *ast.Ident
+	ast.Inspect(decl.Body, func(n ast.Node) bool {
+		ts, ok := n.(*ast.TypeSwitchStmt)
+		if !ok {
+			return true
+		}
+		if as, ok := ts.Assign.(*ast.AssignStmt); ok && len(as.Lhs) == 1 {
+			swVar, _ = as.Lhs[0].(*ast.Ident)
+		}
+		for _, c := range ts.Body.List {
+			cc := c.(*ast.CaseClause)
+			for _, e := range cc.List {
+				if tv, ok := info.Types[e]; ok {
+					if pt, ok := tv.Type.(*types.Pointer); ok {
+						if nm, ok := types.Unalias(pt.Elem()).(*types.Named); ok {
+							cases[nm.Obj().Name()] = cc
+						}
+					}
+				}
+			}
+		}
+		return false
+	})
+	n := 0
+	for _, nm := range structs {
+		if !reach[nm] || nm == target || !canContain(nm) {
+			continue
+		}
+		st := nm.Underlying().(*types.Struct)
+		for i := 0; i < st.NumFields(); i++ {
+			f := st.Field(i)
+			deep := false
+			for _, c := range holds(f.Type()) {
+				if canContain(c) {
+					deep = true
+				}
+			}
+			if !deep {
+				continue
+			}
+			n++
+			key := fmt.Sprintf("ternary search/*ast.%s/child %s is searched", nm.Obj().Name(), f.Name())
+			cc := cases[nm.Obj().Name()]
+			if cc == nil {
+				r.Fail(key, p.Pos(decl.Pos()), fmt.Sprintf("the search for a ternary inside the condition of a ternary has no case for *ast.%s, which can occur inside an expression and can hold a ternary in %s: a ternary below such a node is not seen, and the nested ternary is accepted", nm.Obj().Name(), f.Name()))
+				continue
+			}
+			mentioned := false
+			for _, stmt := range cc.Body {
+				ast.Inspect(stmt, func(x ast.Node) bool {
+					if se, ok := x.(*ast.SelectorExpr); ok && se.Sel.Name == f.Name() {
+						if id, ok := se.X.(*ast.Ident); ok && swVar != nil && info.Uses[id] != nil && info.Uses[id].Pos() >= cc.Pos() || ok && swVar != nil && id.Name == swVar.Name {
+							mentioned = true
+						}
+					}
+					return true
+				})
+			}
+			if mentioned {
+				r.OkNT(key, p.Pos(cc.Pos()), "the case reads the child")
+			} else {
+				r.Fail(key, p.Pos(cc.Pos()), fmt.Sprintf("the case for *ast.%s never reads %s: a ternary there is not seen", nm.Obj().Name(), f.Name()))
+			}
+		}
+	}
+	if n == 0 {
+		r.Undecided("ternary search covers every kind of node", p.Pos(decl.Pos()), "no node type with children found in package ast")
+	}
 }
 
 func ruleLocalGuard(p *Program, r *Reporter) {
